@@ -226,5 +226,13 @@ func genC11(ctx *Ctx) {
 			}
 		}
 	}
+	// declared string lengths in the last few values below 2^31 (offset + length no longer fits 32 bits): a QUERY's long
+	// string, and the query string of a BATCH child.  The unchanged decoder allocates the declared length before it notices
+	// the short input, so only a few of them.
+	for _, l := range []uint32{0x7fffffff, 0x7ffffffc} {
+		lb := []byte{byte(l >> 24), byte(l >> 16), byte(l >> 8), byte(l)}
+		emit(primitive.ProtocolVersion4, primitive.OpCodeQuery, append(append([]byte{}, lb...), 'S', 'E', 'L', 'E', 'C', 'T'), false, hv.L(), "length-near-2^31")
+		emit(primitive.ProtocolVersionDse2, primitive.OpCodeBatch, append(append([]byte{0, 0, 1, 0}, lb...), 'I', 'N', 'S', 0, 0, 0, 1), false, hv.L(), "length-near-2^31")
+	}
 	_ = message.Query{}
 }
